@@ -118,6 +118,11 @@ def order(
             if k not in dependencies:
                 external_keys.add(k)
                 dsk[k] = DataNode(k, object())
+        # Legacy (tuple/list) values that name an external key now reference the
+        # artificial node: derive both mappings from the completed graph so that
+        # they keep agreeing once the dependency cache is invalidated below.
+        dependencies = DependenciesMapping(dsk)
+        dependents = reverse_dict(dependencies)
 
     expected_len = len(dsk)
     leaf_nodes = {k for k, v in dependents.items() if not v}
